@@ -160,6 +160,19 @@ pub fn run(args: &Args) -> Report {
         let label = format!("bridged end with 1.4 MB ready at once, read through a buffer of 12 345 octets | {}", cfg.describe());
         cases.push(Case { try_unbounded: false, max_k: 1, label, exec: Box::new(move |r| xfer::exec(&cfg, &or, r)) });
     }
+    // single writes, plain and vectored, longer than one frame may carry (512 KiB): whatever count the call reports is
+    // what the peer gets to read (a short count is fine, a count beyond what was queued is not)
+    for (a, b) in [((4u32, 2u32), (4u32, 2u32)), ((1, 1), (2, 1))] {
+        let streams = vec![StreamSpec {
+            tag: 1,
+            opener: 0,
+            opener_plan: EndPlan::Split(vec![Op::WV(vec![300_000, 300_000, 300_000]), Op::W(700_000), Op::WV(vec![0, 524_288, 1]), Op::WV(vec![524_287, 0, 2, 5]), Op::Shutdown], vec![Op::ReadToEof(65_536)]),
+            acceptor_plan: EndPlan::Split(vec![Op::WV(vec![600_000, 10]), Op::W(524_289), Op::Shutdown], vec![Op::ReadToEof(65_536)]),
+        }];
+        let cfg = XferCfg { a, b, cap: 0, streams, stream_buffer: 4, one_byte_frames: false, dgram_pingpong: 0, dgram_buffer: 4, drop_mux_when_writers_done: None, extra: xfer::XferExtra::NONE, horizon: 8000 };
+        let label = format!("single plain and vectored writes longer than a frame | {}", cfg.describe());
+        cases.push(Case { try_unbounded: false, max_k: 1, label, exec: Box::new(move |r| xfer::exec(&cfg, &or, r)) });
+    }
     // the flow-id generator proposes ids that are taken (the id of the live first stream, 0, the id the other side is
     // using): the streams still must not touch each other
     for (rng_a, rng_b) in [(&[5u32, 5, 6][..], &[][..]), (&[5, 0, 5, 7], &[]), (&[5, 6], &[5, 5, 6, 8]), (&[9, 9, 9, 4], &[9, 4, 4, 3])] {
